@@ -196,6 +196,12 @@ def rule_bce(ck, R):
         if not df:
             continue
         nret += 1
+        # the sink's state object is whatever this call hands to continuable_sink_init (a local, a member of a local
+        # state struct, ...)
+        ini = p.calls('continuable_sink_init')
+        if ini and len(ini[0].args) >= 2 and strip_cast(ini[0].args[1])[0] == '&':
+            cso = strip_cast(ini[0].args[1])[1]
+            csdata = ('f', ('&', ('f', ('&', cso), 'buffer')), 'data')
         blk = sym.mem_read(p.mem, csdata)
         fr = sym.mem_read(p.mem, ('f', MF, 'frame'))
         handed = strip_cast(fr) == strip_cast(blk) or ('buffer.data' in fmt(fr) and 'cs' in fmt(fr) and strip_cast(fr)[0] != 'c')
